@@ -590,3 +590,55 @@ func (t *Ticker) Stop() {
 
 // Tick is time.Tick.
 func Tick(d time.Duration) chan time.Time { return NewTicker(d).C }
+
+// ---- sync.Cond (package vsync) ----
+
+// CondEnqueue registers the running thread as a waiter of the condition
+// variable identified by key and returns its ticket.
+func CondEnqueue(key interface{}) int {
+	s := cur
+	if s == nil {
+		return 0
+	}
+	if s.conds == nil {
+		s.conds = map[interface{}]*condState{}
+	}
+	c := s.conds[key]
+	if c == nil {
+		c = &condState{}
+		s.conds[key] = c
+	}
+	c.next++
+	c.waiting = append(c.waiting, c.next)
+	return c.next
+}
+
+// CondWait blocks until the ticket has been woken by Signal or Broadcast.
+func CondWait(key interface{}, ticket int) {
+	s := cur
+	if s == nil || s.running.aborting {
+		return
+	}
+	s.park(&op{kind: opCond, cond: s.conds[key], ticket: ticket})
+}
+
+// CondWake wakes one (the longest waiting) or all waiters.
+func CondWake(key interface{}, all bool) bool {
+	s := cur
+	if s == nil {
+		return false
+	}
+	if s.running.aborting || s.conds == nil || s.conds[key] == nil {
+		return true
+	}
+	c := s.conds[key]
+	n := 1
+	if all {
+		n = len(c.waiting)
+	}
+	for i := 0; i < n && len(c.waiting) > 0; i++ {
+		c.woken = append(c.woken, c.waiting[0])
+		c.waiting = c.waiting[1:]
+	}
+	return true
+}
